@@ -48,7 +48,7 @@ func init() {
 
 func cases(tier string) int {
 	if tier == "thorough" {
-		return 1600
+		return 800
 	}
 	return 192
 }
